@@ -58,6 +58,46 @@ impl State {
 //@use state.fns State::load_value_opcode
 //@use state.fns State::backpatch
 //@use state.fns State::fetch_and_run
+//@use state.fns State::clear_last_error
+//@use state.fns State::rnext
+}
+
+// R6 (rnext): the non-capturing closure `|xs| xs.reverse_log.as_mut().and_then(|log| log.pop())` as a named
+// helper with the literal meaning of that line: pop the last entry of the log, if recording and non-empty
+#[verifier::external_body]
+fn verif_pop_log(xs: &mut State) -> (r: Option<ReverseStep>)
+    ensures
+        *final(xs) == (State { reverse_log: final(xs).reverse_log, ..*old(xs) }),
+        final(xs).rec() == old(xs).rec(),
+        old(xs).rec() && old(xs).log().len() > 0 ==> r == Some(old(xs).log().last()) && final(xs).log() == old(xs).log().drop_last(),
+        !(old(xs).rec() && old(xs).log().len() > 0) ==> r is None && final(xs).log() == old(xs).log(),
+{ unimplemented!() }
+
+// C02, the closing lemma over the contracts of fetch_and_run and rnext: one forward step followed by
+// one backward step restores the machine state and the log exactly (with recording on and a history
+// of completed instructions behind it).  By induction k backward steps undo k forward steps.
+fn lemma_step_then_rnext(xs: &mut State)
+    requires
+        old(xs).inv(), old(xs).rec(), log_wf(old(xs).log()),
+        old(xs).ctx.ip < old(xs).code@.len(), old(xs).code@.len() <= 0x4000_0000,
+    ensures true
+{
+    let ghost a: State = *xs;
+    let r = xs.fetch_and_run();
+    if r.is_ok() {
+        let ghost s: State = *xs;
+        proof {
+            let n = choose|n: nat| insn_rev(&a, &s, n);
+            assert(insn_rev(&a, &s, n) && log_wf(a.log()));
+            let p = prev_insn(&s);
+            assert(has_prev_insn(&s)) by { let w = (a, n); assert(insn_rev(&w.0, &s, w.1) && log_wf(w.0.log())); }
+            lemma_prev_unique(a, n, p.0, p.1, s);
+        }
+        let r2 = xs.rnext();
+        assert(r2 is Ok);
+        assert(xs.mach() == a.mach());
+        assert(xs.log() == a.log());
+    }
 }
 
 // R4: a native word called through its function pointer.  ASSUMED native-word contract: a native
